@@ -81,6 +81,11 @@ func (o *obs) fixedCases() {
 	o.signCase("fixed", x, y, x)
 	o.signCase("fixed", pt(0, 1, 0), pt(math.Copysign(0, -1), 1, 0), x) // +0 / -0: identical for ==
 	o.signCase("fixed", pt(0.6, 0.8, 0), pt(0.8, 0.6, 0), pt(-0.6, 0.8, 0))
+	// stableSign underflow defect (reported by the C03 worker): c = b with X = -5e-324
+	o.signCase("fixed:stableSign-underflow",
+		pt(math.Float64frombits(0x3fe90f7bd8cd8e08), math.Float64frombits(0xbfcc55408c56be46), math.Float64frombits(0xbfe2987f204089a9)),
+		pt(0, math.Float64frombits(0x3fdf84b33442996f), math.Float64frombits(0x3febd9b7e6fd4520)),
+		pt(math.Float64frombits(0x8000000000000001), math.Float64frombits(0x3fdf84b33442996f), math.Float64frombits(0x3febd9b7e6fd4520)))
 	o.symCase("fixed", pt(0, -1, 0), pt(0, 0, -1), pt(0, 0, 0)) // the final CounterClockwise
 	o.distancesCase("fixed", x, pt(0.6, 0.8, 0), pt(0.6, 0, 0.8))
 	o.distancesCase("fixed", x, pt(0.6, 0, 0.8), pt(0.6, 0.8, 0))
@@ -165,6 +170,31 @@ func (o *obs) genSign(budget int) {
 		a, b, c = o.shuffle3(sym(a), sym(b), sym(c))
 		o.signCase("sign:separation-1e-1..1e-320", a, b, c)
 	}
+	// two points that differ only by a denormal / tiny amount in a coordinate that is exactly 0
+	// in one of them (generic direction otherwise): |e|^2 underflows in stableSign
+	for i := 0; i < 3000*budget; i++ {
+		o.searchOnly = i >= 60*budget // a wrong answer needs ~400 trials: most of them run [S] only
+		b := norm(r3.Vector{X: 0, Y: rng.Range(-1, 1), Z: rng.Range(-1, 1)})
+		t := math.Ldexp(1, -1074+rng.Intn(600))
+		if rng.Intn(3) != 0 { // the last few binades above the smallest denormal
+			t = math.Ldexp(float64(1+rng.Intn(7)), -1074+rng.Intn(3))
+		}
+		if rng.Bool() {
+			t = -t
+		}
+		c := pt(t, b.Y, b.Z)
+		if rng.Intn(3) == 0 {
+			c = ulpsPt(c, 0, rng.Intn(3)-1, rng.Intn(3)-1)
+		}
+		a := o.randUnit()
+		if rng.Intn(3) == 0 { // a nearly on the great circle through b with x = 0
+			a = norm(r3.Vector{X: math.Ldexp(rng.Range(-1, 1), -rng.Intn(1074)), Y: rng.Range(-1, 1), Z: rng.Range(-1, 1)})
+		}
+		sym := o.cubeSym()
+		a, b, c = o.shuffle3(sym(a), sym(b), sym(c))
+		o.signCase("sign:tiny-offset-from-zero-coordinate", a, b, c)
+	}
+	o.searchOnly = false
 	// identical, +-0, antipodal
 	for i := 0; i < 12*budget; i++ {
 		a, b := o.randUnit(), o.randUnit()
